@@ -42,6 +42,7 @@ type RealmSetup struct {
 	model.RealmSpec
 	Authorizer        router.Authorizer
 	RequireLocalAuthz bool
+	RequireLocalAuth  bool
 	MetaStrict        bool
 }
 
@@ -49,7 +50,7 @@ func (rs RealmSetup) config() *router.RealmConfig {
 	rc := &router.RealmConfig{
 		URI: wamp.URI(rs.Name), StrictURI: rs.Strict, AnonymousAuth: true, AllowDisclose: rs.AllowDisclose,
 		Authenticators: []auth.Authenticator{&tableAuth{roles: authTable}, auth.NewCRAuthenticator(c04Keys{}, time.Minute)}, EnableMetaKill: rs.MetaKill,
-		Authorizer: rs.Authorizer, RequireLocalAuthz: rs.RequireLocalAuthz, MetaStrict: rs.MetaStrict,
+		Authorizer: rs.Authorizer, RequireLocalAuthz: rs.RequireLocalAuthz, RequireLocalAuth: rs.RequireLocalAuth, MetaStrict: rs.MetaStrict,
 	}
 	for _, h := range rs.History {
 		rc.TopicEventHistoryConfigs = append(rc.TopicEventHistoryConfigs, &router.TopicEventHistoryConfig{Topic: wamp.URI(h.Topic), MatchPolicy: h.Match, Limit: h.Limit})
@@ -66,6 +67,7 @@ type PuppetSetup struct {
 	Features map[string][]string // nil: all features
 	QSize    int
 	TDetails wamp.Dict
+	LocalAuth bool // the realm requires authentication of in-process peers too
 }
 
 func (ps PuppetSetup) hello() wamp.Dict {
@@ -77,7 +79,7 @@ func (ps PuppetSetup) hello() wamp.Dict {
 	}
 	if ps.AuthID != "" {
 		d["authid"] = ps.AuthID
-		if ps.Kind != sim.Local {
+		if ps.Kind != sim.Local || ps.LocalAuth {
 			d["authmethods"] = wamp.List{"vtable"}
 		}
 	}
